@@ -38,7 +38,7 @@ separated by ` | `, or `value-error` / `index-error` / `key-error` / `type-error
   ftran <se> <gset> 1 <g>|2 | (five nas sections) | got | goq | gm | pha | phg | request
                                -> ok nr nc : entries | id dof …            (formtran; a matrix section is `se : nr nc v … ; …`)
   fulvs <seup> <sedn> <keepcset> <shortcut> <gset> | (5) | (5 matrices) | ulvs      -> ok one / ok nr nc : entries   (formulvs)
-  fshapes <seup> <sedn> <keepcset> <gset> | (5) | (5 matrices)      -> ok <0|1> | nr nc ; nr nc ; …   (shapesTest: the levels of
+  fshapes <seup> <sedn> <keepcset> <gset> | (5) | (5 matrices)      -> ok <0|1> | nr nc ; nr nc ; … | wf <0|1>   (wf = wfB: phg / pha rectangular; shapesTest: the levels of
                                the loop of formulvs from seup down to sedn: ShapesAgree, then rows / columns of each level)
   fdrm <seup> <sedn> <gset> 1 <g>|2 | (5) | (5 matrices) | ulvs | request           -> ok nr nc : entries | id dof …  (formdrm)
   qftran / qfulvs / qfdrm                      the same three with rational entries `n/d` (the nas2cam files of pyYeti's tests;
@@ -291,7 +291,8 @@ def answer (line : String) : String :=
       match seup.toNat?, sedn.toNat?, nasTOf [s1, s2, s3, s4, s5, a, b, c, d, e] with
       | some seup, some sedn, some nt =>
           replyT (shapesTest (fun i d => [(i : Int), (d : Int)]) mks nt seup sedn (kc = "1") (gset = "1"))
-            (fun r => (if r.1 then "1" else "0") ++ " | " ++ " ; ".intercalate (r.2.map fun m => s!"{m.r.length} {m.c}"))
+            (fun r => (if r.1 then "1" else "0") ++ " | " ++ " ; ".intercalate (r.2.map fun m => s!"{m.r.length} {m.c}") ++
+              " | wf " ++ (if wfB nt then "1" else "0"))
       | _, _, _ => "bad-op"
   | "fdrm" :: seup :: sedn :: gset :: kind, [s1, s2, s3, s4, s5, a, b, c, d, e, u, rq] =>
       match seup.toNat?, sedn.toNat?, nasTOf [s1, s2, s3, s4, s5, a, b, c, d, e], ulvsOf u, request kind rq with
